@@ -21,6 +21,7 @@ import (
 	"github.com/vimeo/dials"
 	"github.com/vimeo/dials/ez"
 	"github.com/vimeo/dials/sources/flag"
+	"github.com/vimeo/dials/tagformat/caseconversion"
 )
 
 type ECfg struct {
@@ -30,7 +31,7 @@ type ECfg struct {
 		Cap int `dials:"cap"`
 	} `dials:"net"`
 	R   int   `dials:"r"`
-	B   int   `dials:"b"`
+	B   int   `dials:"b" dialsalias:"old_bee"`
 	Lim *ELim `dials:"lim"`
 }
 
@@ -86,6 +87,10 @@ type ezCase struct {
 	Fmt    string              `json:"fmt"`
 	Watch  bool                `json:"watch"`
 	CmdLn  bool                `json:"cmdline"` // use the process-wide flag.CommandLine with an application-registered flag
+	FOpt   struct {
+		Alias bool   `json:"alias"` // the file writes leaf b under its alias name
+		Enc   string `json:"enc"`   // "kebab": Params.FileFieldNameEncoder = kebab-case (dials tags are lower_snake)
+	} `json:"fopt"`
 	Ran    struct {
 		Done    bool             `json:"done"`
 		Err     string           `json:"err"`
@@ -142,7 +147,35 @@ func setLeaf(c *ECfg, leaf string, v int) {
 var ezEnvName = map[string]string{"a": "A", "c": "NET_CAP", "r": "R", "b": "B", "m": "LIM_MAX"}
 var ezFlagName = map[string]string{"a": "a", "c": "net-cap", "r": "r", "b": "b", "m": "lim-max"}
 
-func ezFileText(format string, vals map[string]int, malformed bool) string {
+// ezBKey: the key under which the file writes leaf b
+func (c *ezCase) ezBKey() string {
+	if !c.FOpt.Alias {
+		return "b"
+	}
+	if c.FOpt.Enc == "kebab" {
+		return "old-bee"
+	}
+	return "old_bee"
+}
+
+func ezFileText(format string, vals map[string]int, malformed bool, bkey string) string {
+	if v, ok := vals["b"]; ok && bkey != "b" {
+		vals = copyVals(vals)
+		delete(vals, "b")
+		vals[bkey] = v
+	}
+	return ezFileText0(format, vals, malformed, bkey)
+}
+
+func copyVals(m map[string]int) map[string]int {
+	o := map[string]int{}
+	for k, v := range m {
+		o[k] = v
+	}
+	return o
+}
+
+func ezFileText0(format string, vals map[string]int, malformed bool, bkey string) string {
 	if malformed {
 		switch format {
 		case "yaml":
@@ -155,7 +188,7 @@ func ezFileText(format string, vals map[string]int, malformed bool) string {
 	switch format {
 	case "toml":
 		var b strings.Builder
-		for _, k := range []string{"a", "r", "b"} {
+		for _, k := range []string{"a", "r", bkey} {
 			if v, ok := vals[k]; ok {
 				fmt.Fprintf(&b, "%s = %d\n", k, v)
 			}
@@ -169,7 +202,7 @@ func ezFileText(format string, vals map[string]int, malformed bool) string {
 		return b.String()
 	case "yaml":
 		var b strings.Builder
-		for _, k := range []string{"a", "r", "b"} {
+		for _, k := range []string{"a", "r", bkey} {
 			if v, ok := vals[k]; ok {
 				fmt.Fprintf(&b, "%s: %d\n", k, v)
 			}
@@ -186,7 +219,7 @@ func ezFileText(format string, vals map[string]int, malformed bool) string {
 		return b.String()
 	}
 	m := map[string]any{}
-	for _, k := range []string{"a", "r", "b"} {
+	for _, k := range []string{"a", "r", bkey} {
 		if v, ok := vals[k]; ok {
 			m[k] = v
 		}
@@ -275,9 +308,9 @@ func runEzCase(c ezCase, dir string) (mis []ezMis) {
 	if len(c.Path) > 0 {
 		switch c.FState {
 		case "ok":
-			atomicWrite(path, ezFileText(c.Fmt, fileVals, false))
+			atomicWrite(path, ezFileText(c.Fmt, fileVals, false, c.ezBKey()))
 		case "malformed":
-			atomicWrite(path, ezFileText(c.Fmt, fileVals, true))
+			atomicWrite(path, ezFileText(c.Fmt, fileVals, true, c.ezBKey()))
 		}
 	}
 	// defaults, environment, flags
@@ -350,6 +383,10 @@ func runEzCase(c ezCase, dir string) (mis []ezMis) {
 			mu.Unlock()
 		},
 		OnWatchedError: func(context.Context, error, *ECfg, *ECfg) { mu.Lock(); nerr++; mu.Unlock() }}
+	if c.FOpt.Enc == "kebab" {
+		params.DialsTagNameDecoder = caseconversion.DecodeLowerSnakeCase
+		params.FileFieldNameEncoder = caseconversion.EncodeKebabCase
+	}
 	var d *dials.Dials[ECfg]
 	var err error
 	switch c.Fmt {
@@ -418,7 +455,7 @@ func runEzCase(c ezCase, dir string) (mis []ezMis) {
 		mu.Lock()
 		nerr0, ncb0 := nerr, len(newCfgs)
 		mu.Unlock()
-		atomicWrite(path, ezFileText(c.Fmt, vals, ch.State != "ok"))
+		atomicWrite(path, ezFileText(c.Fmt, vals, ch.State != "ok", c.ezBKey()))
 		deadline := time.Now().Add(3 * time.Second)
 		ok := false
 		for time.Now().Before(deadline) {
